@@ -1,9 +1,11 @@
 import MgpuProofs.C17Sem
 /-! # C17 — the DRAM model `simplebankedmemory` behaves as a memory
 
-Property theorems only. The model (`MgpuModel/C17.lean`) is the tick-exact transcription of the component
-after the `fix:` commit (row hits stay behind earlier requests of their bank); it is tied to the real code by
-the per-run correspondence check. Helper lemmas: `MgpuProofs/C17Lemmas.lean`, `C17Inv.lean`, `C17Sem.lean`. -/
+Property theorems only. The first model (`State`, `run` in `MgpuModel/C17.lean`) is the tick-exact transcription of the
+component after the first `fix:` commit (row hits stay behind earlier requests of their bank); for ONE lane it is exactly
+the shipped code (`one_lane_refines` in `Props/C17W.lean` + the driver's per-line comparison), for several lanes the code
+before the second `fix:` commit. The theorems here are the width-1 ones; `Props/C17W.lean` has the safety theorems for
+every width on the model of the repaired code, which the per-run correspondence check ties to the real component. Helper lemmas: `MgpuProofs/C17Lemmas.lean`, `C17Inv.lean`, `C17Sem.lean`. -/
 namespace C17
 
 /-- **Masked writes touch exactly their enabled bytes.** After committing a write with a dirty mask, a byte
@@ -118,7 +120,10 @@ def MemSemantics (c : Cfg) : Prop :=
       ∀ x, touches x r = true →
         readByte (run c ops).log x = readByte ((run c ops).arrived.take r.id).reverse x
 
-/-- the full statement: memory semantics regardless of every parameter, including the pipeline width -/
+/-- the full statement on the FIRST model (`run`): memory semantics regardless of every parameter, including the pipeline
+width. For width > 1 the first model is the component *before* the in-order repair of `finalizeSingle` (it takes whatever
+stands at the head of the post-pipeline buffer); the same statement about the repaired code is
+`mem_semantics_all_widths` in `Props/C17W.lean` — a theorem. -/
 def mem_semantics_full : Prop := ∀ c : Cfg, 0 < c.banks → 0 < c.width → 0 < c.depth → ConvOk c → MemSemantics c
 
 /-- **Partial (all that holds of the code):** pipeline width 1 — every other parameter free (banks, interleave,
@@ -136,10 +141,11 @@ def w2ops : List Op := [.deliver .wr 0 1 [0x11] none, .tick, .tick, .deliver .wr
   .deliver .wr 0x80 1 [0xaa] none, .tick, .deliver .wr 0x80 1 [0xbb] none, .tick, .tick, .tick, .tick,
   .deliver .rd 0x80 1 [] none, .tick, .out 8, .tick, .out 8, .tick]
 
-/-- **Refuted for width > 1** (Akita `pipelining.Pipeline` drains lane 0 before lane 1 when the post-pipeline
-buffer frees one slot): 1 bank, width 2, depth 1 — the read of 0x80 (request 4) is about to commit while the
-earlier write `bb` (request 3) waits in lane 1; the storage holds `aa`, flat memory in arrival order `bb`.
-The same scenario runs on the real component in every check (`C17.order.width>1`). -/
+/-- **Why the repair was needed — refuted for width > 1 before it** (Akita `pipelining.Pipeline` drains lane 0 before
+lane 1 when the post-pipeline buffer frees one slot): 1 bank, width 2, depth 1 — the read of 0x80 (request 4) is about to
+commit while the earlier write `bb` (request 3) waits in lane 1; the storage holds `aa`, flat memory in arrival order
+`bb`. The same scenario runs on the real (repaired) component in every check and now answers `bb`
+(`width2_witness_repaired` in `Props/C17W.lean` shows both models side by side). -/
 theorem mem_semantics_full_refuted : ¬ mem_semantics_full := by
   intro h
   have h1 := h w2 (by decide) (by decide) (by decide) (by decide) w2ops (by decide) 0
